@@ -159,6 +159,20 @@ def asCsr (indices : List (List Nat)) (nrows : Nat) : Except CErr (List Nat × L
   | .ok rp => .ok (rp.map Int.toNat, indices.map fun t => t.getD 1 0)
   | .error e => .error e
 
+/-! ## the block position of `Inflate._assparse` -/
+
+/-- `(acc, *itertools.accumulate(l, operator.mul, initial=acc)[1:])`, i.e. `[acc, acc*l0, acc*l0*l1, …]`: with `acc = 1` this is
+`(1, *itertools.accumulate(l, operator.mul))` -/
+def runProd (acc : Nat) : List Nat → List Nat
+  | [] => [acc]
+  | n :: t => acc :: runProd (acc * n) t
+
+/-- `strides = (1, *itertools.accumulate(self.dofmap.shape[:0:-1], operator.mul))[::-1]` -/
+def blockStrides (shape : List Nat) : List Nat := (runProd 1 (shape.drop 1).reverse).reverse
+
+/-- `functools.reduce(operator.add, map(operator.mul, indices[keep_dim:], strides))` -/
+def stridedPos (idx strides : List Nat) : Nat := (List.zipWith (· * ·) idx strides).foldl (· + ·) 0
+
 /-! ## the merge step of `Array.assparse` -/
 
 /-- `flatindex = i0; for n, index in zip(shape[1:], indices[1:]): flatindex = flatindex * n + index` -/
